@@ -5,7 +5,7 @@
  *   print FILEHEX            the bytes become a file (memfd, opened through /proc/self/fd/N);
  *                            qb_log_blackbox_print_from_file is called on it
  *   mk SIZE                  (re)creates the blackbox target with QB_LOG_CONF_SIZE = SIZE   -> `ok W`
- *   r PRIO LINE TAGS SEC NSEC FUNCHEX SHAPE FMTHEX A1 A2
+ *   r PRIO LINE TAGS SEC NSEC FUNCHEX SHAPE FMTHEX A1 A2 [A3 A4]   (shapes: see log_shape)
  *                            logs one record through the real logger (qb_log_real_) with a
  *                            hand-made call site routed to the blackbox only and the clock
  *                            scripted to SEC.NSEC                  -> `logged ... REFHEX`
@@ -286,6 +286,7 @@ static void do_mk(long size)
 static void log_shape(struct qb_log_callsite *cs, char *ref, size_t reflen, int shape, char **a)
 {
 	long long v1 = a[0] ? strtoll(a[0], NULL, 0) : 0, v2 = a[1] ? strtoll(a[1], NULL, 0) : 0;
+	long long v3 = a[2] ? strtoll(a[2], NULL, 0) : 0;
 	size_t l1 = 0, l2 = 0;
 	unsigned char *s1 = NULL, *s2 = NULL;
 	switch (shape) {
@@ -300,6 +301,16 @@ static void log_shape(struct qb_log_callsite *cs, char *ref, size_t reflen, int 
 		qb_log_real_(cs, (char *)s1, (int)v2); snprintf(ref, reflen, cs->format, (char *)s1, (int)v2); break;
 	case 6: qb_log_real_(cs, (int)v1, (int)v2); snprintf(ref, reflen, cs->format, (int)v1, (int)v2); break;
 	case 7: qb_log_real_(cs, (long)v1, (int)v2); snprintf(ref, reflen, cs->format, (long)v1, (int)v2); break;
+	/* two strings: a width-padded %s followed by another conversion */
+	case 8: s1 = vl_unhex(a[0], &l1); s1[l1] = 0; s2 = vl_unhex(a[1], &l2); s2[l2] = 0;
+		qb_log_real_(cs, (char *)s1, (char *)s2); snprintf(ref, reflen, cs->format, (char *)s1, (char *)s2); break;
+	/* width or precision taken from the arguments (`%*s`, `%.*s`), then a string, then an int */
+	case 9: s2 = vl_unhex(a[1], &l2); s2[l2] = 0;
+		qb_log_real_(cs, (int)v1, (char *)s2, (int)v3); snprintf(ref, reflen, cs->format, (int)v1, (char *)s2, (int)v3); break;
+	/* string, int, string, int: a table row */
+	case 10: s1 = vl_unhex(a[0], &l1); s1[l1] = 0; s2 = vl_unhex(a[2], &l2); s2[l2] = 0;
+		qb_log_real_(cs, (char *)s1, (int)v2, (char *)s2, (int)(a[3] ? strtoll(a[3], NULL, 0) : 0));
+		snprintf(ref, reflen, cs->format, (char *)s1, (int)v2, (char *)s2, (int)(a[3] ? strtoll(a[3], NULL, 0) : 0)); break;
 	default: ref[0] = 0; break;
 	}
 	free(s1);
@@ -312,7 +323,7 @@ static void do_rec(char **t, int nt)
 	size_t fl, ml;
 	unsigned char *fn, *fmt;
 	char ref[QB_LOG_MAX_LEN * 2];
-	char *args[2] = { NULL, NULL };
+	char *args[4] = { NULL, NULL, NULL, NULL };
 	int shape;
 	if (!bb_on || nt < 9) { printf("bad-op\n"); return; }
 	memset(&cs, 0, sizeof cs);
@@ -333,6 +344,8 @@ static void do_rec(char **t, int nt)
 	shape = atoi(t[7]);
 	if (nt > 9) args[0] = t[9];
 	if (nt > 10) args[1] = t[10];
+	if (nt > 11) args[2] = t[11];
+	if (nt > 12) args[3] = t[12];
 	clock_scripted = 1;
 	log_shape(&cs, ref, sizeof ref, shape, args);
 	clock_scripted = 0;
